@@ -8,6 +8,41 @@ CLAIMED = {
    note="Trusted: Lean kernel; axioms propext/Classical.choice/Quot.sound only (audited by #print axioms each run); hex and bitvec crates as specified; the differential harness and generators. Modelled, not verified: the Rust decoder itself (tied by the differential).",
    technique="Lean 4 proof (all inputs) + differential correspondence model vs real codec",
    design="§7 C16"),
+ "C02": dict(
+   text="Proof: ShuttleProofs/C02.lean — complete_switch_normal / complete_outcomes: over arbitrary labelled transition systems, if every visible step is preceded by a scheduling point at which every enabled task is offered (the kernel contract C08) and enabledness refines the spec, every sequentially consistent interleaving is realised by a choice sequence (no axioms); the full statement for Shuttle is FALSE on this tree and is refuted by a kernel-checked witness on the reference side (incomplete_witness_mpsc_drop_ref) plus an executable model-side enumeration. Decision on the code, every run: three-way comparison of OUTCOME SETS on hundreds of small programs — the real runtime under the real exhaustive DfsScheduler, the model kernel's independently enumerated choice tree, and an independent sequentially consistent reference semantics of the IR written from the std-level meaning of each operation (lean/ShuttleModel/Ref.lean); every missing outcome is minimised and its cause is CONFIRMED by re-running the program with a scheduling point inserted before the suspected operations. Known findings re-found on every run: F1 (channel endpoint drops), F23 (Once::is_completed), F24 (available_permits), F25 (blocking Barrier::wait), F21 (reserved channel slot, soundness side).",
+   note="Trusted: Lean kernel + standard axioms; the reference semantics encodes my reading of std's contracts (no spurious condvar wake-ups, park may wake spuriously, re-entrant try_read fails); programs are small (≤3 tasks, ≤5 ops/task) and trees above 4000 leaves are skipped and counted; rand results are abstracted in outcomes.",
+   technique="Lean 4 proof of the abstract completeness theorem + exhaustive three-way outcome-set comparison (impl DFS / model / reference semantics)",
+   design="§7 C02"),
+ "C04": dict(
+   text="Lean 4 theorems over all histories of a most-general client on the pure transition layer of Mutex/RwLock over the BatchSemaphore (ShuttleProofs/C04.lean: mutex_exclusive, rwlock_writer_exclusive, rwlock_no_reader_with_writer, lock_returns_only_if_free/compatible, try_succeeds_iff_available, failed_try_leaves_state (mutex; rwlock incl. the repaired re-entrant try_read: failed_try_leaves_state_fixed, with the witness for the unrepaired code kept), reentrant_diagnosed with the exact panic strings, poison_after_panicking_release, poisoned_is_seen) and, for atomics, through the real runSegment: every operation is one switch followed by one uninterrupted read-modify-write computing std's function mod 2^bits (atomic_*_is_rmw, atomic_total_order). Tie: step-exact differential on lock/atomic streams (all integer widths and bool, boundary operands, panics while holding locks). Oracle: holder-set monitor in log order (end-of-task guard drops are logged), try_* exactness, and every atomic result replayed on a sequential std-semantics reference along the logged total order.",
+   note="Trusted: Lean kernel + standard axioms; the composition of the pure transitions with the kernel is checked by the differential, not proved (only the switch granularity is). F3 repaired in /repo; F11/F12 (poisoning strands queued waiters / exclusion by assertion) are modelled as the code behaves and recorded in DESIGN.md.",
+   technique="Lean 4 proof over the pure lock/semaphore transitions + step-exact differential + holder-set/atomic-replay monitors",
+   design="§7 C04"),
+ "C05": dict(
+   text="Lean 4 theorems over all histories of most-general-client LTSs on the pure transitions of Condvar, Barrier, Once and Task.park/unpark (ShuttleProofs/C05.lean: wait_returns_only_after_notify_during_wait, notify_one_releases_at_most_one (injective map from returns to notify_one epochs), any_waiter_can_win, notify_all_releases_all, condvar_no_lost_wakeup, condvar_blocked_iff_no_pending_signal, barrier_releases_exact_group, one_leader_per_generation, barrier_reuse_generations, exactly_one_initializer, call_once_returns_after_completion, token_is_boolean, park_consumes_or_blocks, unpark_unblocks_or_sets_token, park_invariant). Tie: step-exact differential on waiter/notifier mixes, reused barriers n∈{0..3}, racing call_once, park/unpark, also inside thread::scope. Oracle: per-execution monitors on the log.",
+   note="Trusted: Lean kernel + standard axioms; mutual exclusion of Once's internal mutex is the C04 hypothesis; F10 (scope's unconditional unblock invents a wake-up) is modelled as is, witnessed in corpus/C07 and recorded as a known finding of C07.",
+   technique="Lean 4 proof over primitive LTSs + step-exact differential + log monitors",
+   design="§7 C05"),
+ "C06": dict(
+   text="Lean 4: a 25-clause inductive invariant over EVERY history of the most-general client of the channel's pure transitions (ShuttleProofs/C06.lean: received_is_prefix_of_sent, per_sender_order, capacity_invariant incl. rendezvous, recv_blocks_iff_empty, disconnect_send_fails, disconnect_recv_drains_then_fails, no_stranded_waiter, unblocked_waiter_completes, abstract_refinement to a bounded FIFO, no_panic). Three clauses of the property are false for the code and are proved so on concrete reachable states with exact partial forms: try_send/send report Full/block while a freed slot is reserved for a queued sender (F21, known finding, re-found by the C02 soundness comparison), try_recv on a rendezvous channel blocks until the hand-off, endpoint drops are skipped while any task is panicking. Tie: step-exact differential on channel streams (capacities unb/rdv/1/2, 1–3 senders, drops anywhere, receiver moved to a child, inside scopes). Oracle: FIFO / exactly-once / capacity / drain-before-disconnect monitors.",
+   note="Trusted: Lean kernel + standard axioms; wrapper↔kernel composition by differential.",
+   technique="Lean 4 invariant proof over all channel histories + step-exact differential + FIFO/capacity monitors",
+   design="§7 C06"),
+ "C10": dict(
+   text="Lean 4: iteration_reproducible (for every deterministic program, seed and step bound: the i-th execution of the random scheduler — choices and data draws — equals the single execution of a scheduler built from the seed reported for iteration i), choose_uniform / choose_uniform_u64 (for every 0<n<2^32 resp. 2^64 each index is returned by exactly 2^lz(n) raw draws: equal probability conditional on acceptance), every_offered_positive, choose_history_free, nextTask_history_free — about a BIT-EXACT model of Pcg64Mcg and rand 0.8.8's gen_index/choose/shuffle/index::sample validated on 128k vectors. Tie: prediction mode — the model reproduces every choice and draw of the real RandomScheduler from the seed alone; impl-vs-impl: same seed twice; iteration i's seed fed back with one iteration reproduces iteration i.",
+   note="Uniformity/'eventually visited' are counting theorems about the sampling algorithm; that Pcg64Mcg's outputs are uniform and independent is an assumption, not a theorem. URW: weights ≥ 1 read from urw.rs and the WeightedIndex model is validated on vectors; URW decisions are compared in trace mode only. SHUTTLE_RANDOM_SEED override not exercised.",
+   technique="Lean 4 proof (counting + induction) over a bit-exact RNG model + prediction-mode differential",
+   design="§7 C10"),
+ "C12": dict(
+   text="Lean 4 theorems over ALL process histories (sequences of configured runs on any OS threads) of the emission state machine of failure.rs + Execution::run's error mapping (ShuttleProofs/C12.lean): payload_reraised, continue_after_silent, emission_exact_fixed / emission_depends_only_on_own_config_fixed for the repaired code (the negation for the pinned code — F5, F6 — is kept as proved witnesses with the exact deviation characterisation later_run_deviates_iff), emitted_schedule_replays, portfolio_fails_iff_member_fails. Tie: vh_c12 runs generated sequences of configured real Shuttle runs (Print/File/None × panic in main/thread/future/while holding locks × deadlock × failing and continuing step bounds × portfolios) in child processes, captures stderr and the directory, replays every emitted schedule, and the canonical lines must equal the model's prediction. Oracle: the property text on those lines + 'a panic is never swallowed' on kernel streams with ContinueAfter bounds. Known findings re-found each run: F18 (double emission when unwinding through guards), F20 (ContinueAfter swallows a panic suspended mid-unwind).",
+   note="Trusted: Lean kernel + standard axioms; bytes of messages beyond their class, create_new races and stderr interleaving are not modelled; F5/F6 repaired in /repo (c8ec228).",
+   technique="Lean 4 proof over all process histories + child-process differential of emitted artefacts + replay of every emitted schedule",
+   design="§7 C12"),
+ "C18": dict(
+   text="Lean 4 theorems over all histories of a most-general client (arbitrary finished-task snapshots and clocks) on the pure transition layer of batch_semaphore.rs (ShuttleProofs/C18.lean): conservation, batches_sum_eq_avail, source_invariants_1_to_4 (invariant (1) as written in the source is false for unfair semaphores: witness), acquire_removes_exactly_n, try_iff_immediate, fair_fifo + fair_no_overtaking, unfair_any_fitting_waiter_woken, unfair_losers_reblocked, cancel_safe, close_fails_all, wakes_current_poller, no_internal_assertion_fails, wrappers_atomic_granularity. Tie: step-exact differential on direct BatchSemaphore objects (fair/unfair, batch sizes), everything layered on it (Mutex, RwLock, Once, parking_lot, tokio locks) and the async Acquire API (create/poll/await/drop from different tasks). Oracle: conservation and try exactness from the log with available_permits() probes.",
+   note="Trusted: Lean kernel + standard axioms; wrapper↔kernel composition by differential (only the switch granularity is proved).",
+   technique="Lean 4 proof over the semaphore's pure transition system + step-exact differential",
+   design="§7 C18"),
  "C01": dict(
    text="Lean 4 theorems for EVERY Program over the kernel API, every scheduler (any state type) and all fuel (ShuttleProofs/C01.lean): replay_faithful — replaying the schedule an execution recorded, through the model of ReplayScheduler, yields the same seed, the same event log (offered lists, current, yielding flags, choices, draw values, observations), the same outcome (pass / same panic / same deadlock list / step bound), the same final user state and re-records the same schedule, under the explicit hypothesis DataFaithful (shown necessary by a counterexample and proved for the round-robin, random and DFS schedulers: builtin_data_faithful); replay_exhausts_schedule (none of the replay panics is reachable); replay_from_string(_ws) via the C16 round trip; nondet_check_never_rejects (the uncontrolled-nondeterminism checker never rejects a deterministic program; newExec consulted once per pair); record_exact (C08). Tie: step-exact trace-mode differential on 13 program profiles under random/PCT/round-robin/DFS; oracle, implementation vs implementation: ~1000 recorded executions per run — passing, panicking (also while holding locks), deadlocking, step-bound — are re-run through the real ReplayScheduler::new_from_encoded(serialize_schedule(recorded)) with the run's own config and must reproduce every decision, draw, result, clock, the outcome and the re-recorded schedule.",
    note="Trusted: Lean kernel + standard axioms; programs in the model are deterministic by construction, so the theorems show recording/replay/checker are logically right — that the real runtime has no hidden nondeterminism is what the differential and the replay oracle check on the generated programs. shuttle::replay uses the default Config: the theorems and the oracle replay with the run's own step bound. URW scheduler: differential only. target_clock: partial theorem about next_task only.",
